@@ -117,7 +117,7 @@ theorem simplify_sstep (o : Opts) (e : Expr) (he : WF e) (hq : Plain e) (hopt : 
   · exact SPost_ok hq rfl
   · exact SPost_ok hq rfl
   · exact SPost_ok hq rfl
-  · exact SPost_error _ _ _
+  · simp [Plain] at hq
   · exact SPost_error _ _ _
   · -- slc
     rename_i x pos size sf ref ety
@@ -148,7 +148,10 @@ theorem simplify_sstep (o : Opts) (e : Expr) (he : WF e) (hq : Plain e) (hopt : 
       have := hgi x' hxw hxq (by omega) res (by simpa using hres)
       exact SPost_pure ((Plain_setSf _ _).mpr this.1) (by rw [ideal_setSf]; exact this.2)
     · split
-      · exact SPost_error _ _ _
+      · rename_i hmem
+        exfalso
+        cases x' <;> simp [isMem] at hmem
+        simp [Plain] at hxq
       · cases x' with
         | op xo xl xr xs xf xp =>
           dsimp only
